@@ -404,6 +404,16 @@ def gen_net(seed, tier):
              'NET t0=5000 | L1:251.1a,0.1b F:251.05 | start 0 ; start 1 ; tick 1 ; tick 250 ; drain ; tick 251 ; drain ; tick 251',
              # all three devices contend with a lower foreign NAME at the wrap
              'NET t0=4294967000 | L1:250.10,251.11,0.12 F:250.01 F:251.02 F:0.03 | start 0 ; start 1 ; start 2 ; start 3 ; tick 1 ; tick 250 ; drain ; tick 251 ; drain ; tick 251']
+    # a device that lost every address (254), whose application has read the address-changed indication, is restarted: it claims 14 and the
+    # indication is raised again (seed C03-15); also a restart at an ordinary address and a second exhaustion
+    for start in ([30, 251] if not thorough else [30, 251, 0, 14, 100]):
+        ops = ['start 0', 'tick 1', 'tick 250', 'tick 251']
+        a = start
+        for k in range(252):
+            ops += ['raw 18eeff%02x 8 0000000000000000' % a, 'drain']
+            a = (a + 1) % 252
+        ops += ['tick 251', 'ack 0', 'restart 0', 'drain', 'tick 251', 'ack 0', 'raw 18eeff0e 8 0000000000000000', 'drain', 'tick 251', 'ack 0', 'restart 0', 'drain', 'tick 251']
+        cases.append('NET t0=%d | L%d:%d.1a | %s' % (r.choice([5000, 4294967000]), r.choice([1, 2]), start, ' ; '.join(ops)))
     nrand = 260 if not thorough else 6000
     for _ in range(nrand):
         cases.append(net_random(r))
